@@ -199,6 +199,7 @@ harnesses! {
     e2n_builder_battery [native 0] => battery::builder_battery;
     e2n_c09_battery [native 0] => battery::c09_battery;
     e2n_c09_aux_battery [native 0] => battery::c09_aux_battery;
+    e2n_c09_ref_script_languages [native 0] => battery::c09_ref_script_languages;
     e2n_c10_pointers [native 0] => battery::c10_pointers;
     e2n_c01_struct_roundtrip [native 0] => battery::c01_battery;
     e2n_c01_plutus_variants [native 0] => battery::c01_plutus_variants;
